@@ -714,6 +714,77 @@ func c06Wrappers(kind string) *Scenario {
 	}
 }
 
+// c06Outcomes: every way a handler invocation can end (result, error, failing notification, notification,
+// unknown method, a batch of failing notifications) happens first; each of them must hand its slot back, so
+// that afterwards N gated calls all run at once. A slot lost on one exit path shows as a call that never starts.
+func c06Outcomes(n int, prelude []string, b Bounds) *Scenario {
+	tokens := append([]string{}, prelude...)
+	for i := 0; i < n; i++ {
+		tokens = append(tokens, "g")
+	}
+	return &Scenario{
+		Name:   fmt.Sprintf("N=%d: after {%s} have finished, %d gated calls must all be executing", n, tokensName(prelude), n),
+		Params: map[string]any{"limit": n, "prelude": prelude},
+		Bounds: b,
+		New: func() *Instance {
+			h := &seqHarness{msgs: buildSeq(tokens), gates: NewGates()}
+			body := func() {
+				lib, peer, _ := NewPipe(PipeOpts{Name: "srv", CloseUnblocksRecv: true})
+				srv := jrpc2.NewServer(anyAssigner{h.handler()}, &jrpc2.ServerOptions{Concurrency: n})
+				srv.Start(lib)
+				vs.GoNamed("controller", func() {
+					for i := range prelude {
+						peer.Send([]byte(h.msgs[i].JSON))
+					}
+					vs.AwaitQuiescence()
+					vs.Note("quiet", "prelude-done")
+					for i := len(prelude); i < len(tokens); i++ {
+						peer.Send([]byte(h.msgs[i].JSON))
+					}
+					vs.AwaitQuiescence()
+					vs.Note("quiet", "calls-sent")
+					for i := len(prelude); i < len(tokens); i++ {
+						h.gates.Open(h.msgs[i].Members[0].Method)
+					}
+					vs.AwaitQuiescence()
+					peer.Close()
+				})
+				srv.WaitStatus()
+			}
+			check := func(x *vs.Exec) []Viol {
+				v := genericRules(x, nil)
+				if x.Outcome != "ok" {
+					return v
+				}
+				entered, exited, gated := 0, 0, 0
+				for _, e := range x.Log {
+					switch e.K {
+					case "h_enter":
+						entered++
+						if strings.HasPrefix(e.Arg(0), "g") {
+							gated++
+						}
+						if entered-exited > n {
+							v = append(v, Viol{"C06.R1", fmt.Sprintf("%d handlers executing with Concurrency %d", entered-exited, n)})
+						}
+					case "h_exit":
+						exited++
+					case "quiet":
+						if e.Arg(0) == "calls-sent" {
+							Hit("C06.R2")
+							if gated != n {
+								v = append(v, Viol{"C06.R2", fmt.Sprintf("every earlier request has finished and %d calls are dispatched, but only %d of them are executing (limit %d): an execution slot was not handed back by an earlier request", n, gated, n)})
+							}
+						}
+					}
+				}
+				return v
+			}
+			return &Instance{Body: body, Check: check}
+		},
+	}
+}
+
 func c06Scenarios(tier string) []*Scenario {
 	var out []*Scenario
 	out = append(out, c06Wrappers("jhttp.Bridge"), c06Wrappers("server.Loop"), c06Wrappers("jhttp.Getter"))
@@ -767,6 +838,13 @@ func c06Scenarios(tier string) []*Scenario {
 	} else {
 		out = append(out, c06CancelRace(1, Bounds{3, 2, 0}), c06CancelRace(2, Bounds{2, 2, 0}))
 	}
+	for _, pre := range [][]string{{"f", "e", "n"}, {"[ee]", "u", "v"}, {"z", "c", "[en]"}} {
+		out = append(out, c06Outcomes(1, pre, Bounds{1, 1, 0}))
+		if tier != "quick" {
+			out = append(out, c06Outcomes(2, pre, Bounds{2, 2, 0}), c06Outcomes(3, append(append([]string{}, pre...), pre...), Bounds{1, 1, 0}))
+		}
+	}
+	out = append(out, c06Outcomes(2, []string{"e", "[ee]"}, Bounds{1, 1, 0}))
 	// option mapping: Concurrency < 1 means runtime.NumCPU(); checked on the default schedule
 	ncpu := runtime.NumCPU()
 	if ncpu <= 32 {
